@@ -1770,6 +1770,21 @@ class Interp:
             return Render((("num", t),)) if t is not None else Opaque("fmt")
         if path == "colr.color":
             return args[0]
+        if path in ("numpy.add", "numpy.subtract", "numpy.multiply", "numpy.divide", "numpy.true_divide") and len(args) == 2:
+            a, b = self.to_term(args[0]), self.to_term(args[1])
+            if a is not None and b is not None:
+                op = {"add": "add", "subtract": "sub", "multiply": "mul", "divide": "div", "true_divide": "div"}[path.split(".")[1]]
+                # the value for numbers in range; that these routines are fixed width is a fact of the external table
+                # (the call itself is on record in the event log)
+                return Num((op, a, b))
+        if path == "numpy.negative" and len(args) == 1 and self.to_term(args[0]) is not None:
+            return Num(("neg", self.to_term(args[0])))
+        if path in ("numpy.asarray", "numpy.array", "numpy.isscalar", "numpy.ndim") and args:
+            if path == "numpy.isscalar":
+                return not isinstance(args[0], (Lst, Tup, Dct))
+            if path == "numpy.ndim":
+                return 0 if not isinstance(args[0], (Lst, Tup)) else 1
+            return args[0]
         if path == "numpy.power":
             a, b = self.to_term(args[0]), self.to_term(args[1])
             if a is not None and b is not None:
@@ -2154,7 +2169,12 @@ class Interp:
             try:
                 return ("classattr", const_fold(self.prog, ca[0].module, ca[1]))
             except ValueError:
-                return ("classattr", Opaque(f"classattr:{attr}"))
+                # not a constant: a class, a tuple of classes, a call ... evaluated in the defining module (an object
+                # that outlives the call, like a default argument)
+                try:
+                    return ("classattr", self._eval_retained(ca[1], Env(self, None, ca[0].module)))
+                except Unsupported:
+                    return ("classattr", Opaque(f"classattr:{attr}"))
         return None
 
     def _slots_of(self, cname: str):
